@@ -1002,3 +1002,37 @@ mod tests {
         Ok(())
     }
 }
+
+/// Verification hooks (compiled only with `--cfg chrono_verif`): canonical text dump of a zone.
+#[cfg(chrono_verif)]
+impl TimeZone {
+    pub(super) fn verif_dump(&self) -> String {
+        let types: Vec<String> = self.local_time_types.iter().map(LocalTimeType::verif_dump).collect();
+        let trans: Vec<String> = self
+            .transitions
+            .iter()
+            .map(|t| format!("{}:{}", t.unix_leap_time, t.local_time_type_index))
+            .collect();
+        let leaps: Vec<String> = self
+            .leap_seconds
+            .iter()
+            .map(|l| format!("{}:{}", l.unix_leap_time, l.correction))
+            .collect();
+        let rule = match &self.extra_rule {
+            Some(r) => r.verif_dump(),
+            None => "none".to_string(),
+        };
+        format!("types=[{}] trans=[{}] leaps=[{}] rule={}", types.join(";"), trans.join(","), leaps.join(","), rule)
+    }
+}
+
+#[cfg(chrono_verif)]
+impl LocalTimeType {
+    pub(super) fn verif_dump(&self) -> String {
+        let name = match &self.name {
+            Some(n) => n.as_ref().to_string(),
+            None => "-".to_string(),
+        };
+        format!("{},{},{}", self.ut_offset, self.is_dst as u8, name)
+    }
+}
